@@ -36,13 +36,16 @@ theorem rd_of_fields {s s' : St} (h : RdInv s) (hinner : ∀ b ∈ s'.inner, ∃
   · exact h.sync b' hi
   · rfl
 
-theorem drel_same {g : Globals} {R : Ty} {s s' : St} {ss : SpecSt} (hr : DRel g R s ss) (q : Quiet s s') (hv : s'.vals = s.vals) : DRel g R s' ss :=
+theorem drel_same {g : Globals} {R : Ty} {s s' : St} {ss : SpecSt} (hr : DRel g R s ss) (q : Quiet s s') (hv : s'.vals = s.vals)
+    (hd : s'.dts = s.dts) : DRel g R s' ss :=
   ⟨⟨by unfold ScopeRel; rw [hv]; exact hr.scope.sc, by rw [q.abs, hv]; exact hr.scope.dv,
     by rw [q.tenv, hv]; exact hr.scope.dk, by rw [q.tenv, q.names]; exact hr.scope.dn⟩,
    by rw [q.abs]; exact hr.out, by rw [q.abs]; exact hr.next,
-   fun n hn => by rw [q.names]; exact hr.reg n (by rw [q.abs] at hn; exact hn), q.rd hr.rd, q.tok g R hr.tok⟩
+   fun n hn => by rw [q.names]; exact hr.reg n (by rw [q.abs] at hn; exact hn), q.rd hr.rd, q.tok g R hr.tok,
+   by rw [hd]; exact hr.vinv, by rw [hd, q.names]; exact hr.vreg⟩
 
-theorem drel_enter {g : Globals} {R : Ty} {s s' : St} {ss : SpecSt} (hr : DRel g R s ss) (q : Quiet s s') (hv : s'.vals = [] :: s.vals) :
+theorem drel_enter {g : Globals} {R : Ty} {s s' : St} {ss : SpecSt} (hr : DRel g R s ss) (q : Quiet s s') (hv : s'.vals = [] :: s.vals)
+    (hd : s'.dts = .node [] [] [] :: s.dts) :
     DRel g R s' ss.push :=
   ⟨⟨by unfold ScopeRel; rw [hv]; exact ValsRel.cons (fun _ => rfl) hr.scope.sc,
     by rw [q.abs, hv]; exact DVals.cons (fun _ => rfl) hr.scope.dv,
@@ -55,7 +58,15 @@ theorem drel_enter {g : Globals} {R : Ty} {s s' : St} {ss : SpecSt} (hr : DRel g
       · exact hr.scope.dk fr hfr n v hv',
     by rw [q.tenv, q.names]; exact hr.scope.dn⟩,
    by rw [q.abs]; exact hr.out, by rw [q.abs]; exact hr.next,
-   fun n hn => by rw [q.names]; exact hr.reg n (by rw [q.abs] at hn; exact hn), q.rd hr.rd, q.tok g R hr.tok⟩
+   fun n hn => by rw [q.names]; exact hr.reg n (by rw [q.abs] at hn; exact hn), q.rd hr.rd, q.tok g R hr.tok,
+   by rw [hd]; exact framesOk_enter hr.vinv,
+   by
+     rw [hd, q.names]
+     intro t ht x hx
+     simp only [List.mem_cons] at ht
+     rcases ht with rfl | ht
+     · cases hx
+     · exact hr.vreg t ht x hx⟩
 
 theorem dvals_tail {decls : List Name} {vs : List (List (Name × Value))} {ds : List (List (Name × Nat))}
     (h : DVals decls vs ds) : DVals decls vs.tail ds.tail := by
@@ -63,8 +74,21 @@ theorem dvals_tail {decls : List Name} {vs : List (List (Name × Value))} {ds : 
   | nil => exact DVals.nil
   | cons _ h => exact h
 
-theorem drel_leave {g : Globals} {R : Ty} {s s' : St} {ss : SpecSt} (hr : DRel g R s ss) (q : Quiet s s') (hv : s'.vals = s.vals.tail) :
+theorem drel_leave {g : Globals} {R : Ty} {s s' : St} {ss : SpecSt} (hr : DRel g R s ss) (q : Quiet s s') (hv : s'.vals = s.vals.tail)
+    (hd : s'.dts = closeDts s.dts) (hin : s.inner ≠ []) :
     DRel g R s' ss.pop :=
+  have h2 : ∃ t0 v1 d1 c1 ts, s.dts = t0 :: .node v1 d1 c1 :: ts := by
+    unfold St.dts St.frames
+    cases hi : s.inner with
+    | nil => exact absurd hi hin
+    | cons b rest =>
+      cases rest with
+      | nil =>
+        cases hdt : s.root.dt with
+        | node v d c => exact ⟨b.dt, v, d, c, [], by simp [hdt]⟩
+      | cons p rest' =>
+        cases hdt : p.dt with
+        | node v d c => exact ⟨b.dt, v, d, c, (rest' ++ [s.root]).map Block.dt, by simp [hdt]⟩
   ⟨⟨by unfold ScopeRel; rw [hv]; exact scopeRel_tail hr.scope.sc,
     by rw [q.abs, hv]; exact dvals_tail hr.scope.dv,
     by
@@ -73,7 +97,28 @@ theorem drel_leave {g : Globals} {R : Ty} {s s' : St} {ss : SpecSt} (hr : DRel g
       exact hr.scope.dk fr (List.mem_of_mem_tail hfr) n v hv',
     by rw [q.tenv, q.names]; exact hr.scope.dn⟩,
    by rw [q.abs]; exact hr.out, by rw [q.abs]; exact hr.next,
-   fun n hn => by rw [q.names]; exact hr.reg n (by rw [q.abs] at hn; exact hn), q.rd hr.rd, q.tok g R hr.tok⟩
+   fun n hn => by rw [q.names]; exact hr.reg n (by rw [q.abs] at hn; exact hn), q.rd hr.rd, q.tok g R hr.tok,
+   by
+     obtain ⟨t0, v1, d1, c1, ts, hs⟩ := h2
+     have hv := hr.vinv
+     rw [hs] at hv
+     obtain ⟨fr0, frs0, k0, ks0, hds, hks, hf0, hin0, hrest0⟩ := hv.inv_cons
+     obtain ⟨fr1, frs, k1, ks, hds1, hks1, hf1, hin1, hrest1⟩ := hrest0.inv_cons
+     subst hds1; subst hks1
+     have := framesOk_leave (FramesOk.cons hf0 hin0 (FramesOk.cons hf1 hin1 hrest1))
+     rw [hd, hs]
+     unfold SpecSt.pop SpecSt.topNames
+     dsimp only [closeDts]
+     rw [hds, hks]
+     exact this,
+   by
+     obtain ⟨t0, v1, d1, c1, ts, hs⟩ := h2
+     rw [hd, hs, q.names]
+     intro t ht x hx
+     simp only [closeDts, List.mem_cons] at ht
+     rcases ht with rfl | ht
+     · exact hr.vreg (.node v1 d1 c1) (by rw [hs]; simp) x hx
+     · exact hr.vreg t (by rw [hs]; simp [ht]) x hx⟩
 
 /-! ### The bookkeeping operations are quiet -/
 
@@ -201,6 +246,80 @@ theorem quiet_loopEpilogue (r : Bool) (lb le : Name) (s : St) : Quiet s (loopEpi
   generalize (if r then s else (s.push (.jumpTo lb)).push (.setLabel le)) = s1 at h1
   exact h1.trans (quiet_leave s1)
 
+/-! ### The declaration trees under the bookkeeping operations -/
+
+theorem dts_ifLabels (le : Option Name) (s : St) : (ifLabels le s).2.2.2.dts = .node [] [] [] :: s.dts := by
+  unfold ifLabels
+  dsimp only
+  cases le with
+  | some l => dsimp only; rw [dts_probeLabel, dts_probeLabel, dts_enter]
+  | none => dsimp only; rw [dts_probeLabel, dts_probeLabel, dts_probeLabel, dts_enter]
+
+theorem dts_loopPrologue (s : St) : (loopPrologue s).2.2.dts = .node [] [] [] :: s.dts := by
+  unfold loopPrologue
+  dsimp only
+  rw [dts_push_plain _ _ rfl, dts_push_plain _ _ rfl, dts_probeLabel, dts_probeLabel, dts_enter]
+
+theorem dts_ifAfterBody (isElse r : Bool) (lElse lEnd : Name) (s : St) (hin : s.inner ≠ []) :
+    (ifAfterBody isElse r lElse lEnd s).2.dts = closeDts s.dts := by
+  unfold ifAfterBody
+  dsimp only
+  have h1 : (if r then s else s.push (.jumpTo lEnd)).dts = s.dts ∧ (if r then s else s.push (.jumpTo lEnd)).inner ≠ [] := by
+    cases r
+    · exact ⟨dts_push_plain _ _ rfl, by
+        intro h
+        have := (push_fields (.jumpTo lEnd) s).2
+        simp only [Bool.false_eq_true, if_false] at h
+        rw [h] at this
+        exact hin (List.eq_nil_of_length_eq_zero this.symm)⟩
+    · exact ⟨rfl, hin⟩
+  generalize (if r then s else s.push (.jumpTo lEnd)) = s1 at h1
+  have h2 : (if isElse then s1.push (.setLabel lElse) else s1).dts = s.dts ∧ (if isElse then s1.push (.setLabel lElse) else s1).inner ≠ [] := by
+    cases isElse
+    · exact h1
+    · refine ⟨by rw [if_pos rfl, dts_push_plain _ _ rfl]; exact h1.1, ?_⟩
+      intro h
+      have := (push_fields (.setLabel lElse) s1).2
+      rw [if_pos rfl] at h
+      rw [h] at this
+      exact h1.2 (List.eq_nil_of_length_eq_zero this.symm)
+  generalize (if isElse then s1.push (.setLabel lElse) else s1) = s2 at h2
+  rw [dts_leave s2 h2.2, h2.1]
+
+theorem dts_ifAfterElse (k : Nat) (r : Bool) (lEnd : Name) (s : St) (hin : s.inner ≠ []) :
+    (ifAfterElse k r lEnd s).dts = closeDts s.dts := by
+  unfold ifAfterElse
+  dsimp only
+  cases r
+  · simp only [Bool.false_eq_true, if_false]
+    rw [dts_pushVia _ _ _ rfl, dts_leave s hin]
+  · simp only [if_true]
+    exact dts_leave s hin
+
+theorem dts_ifEpilogue (k : Nat) (le : Option Name) (lEnd : Name) (s : St) : (ifEpilogue k le lEnd s).dts = s.dts := by
+  unfold ifEpilogue
+  cases le
+  · simp only [Option.isSome_none, Bool.false_eq_true, if_false]
+    exact dts_pushVia _ _ _ rfl
+  · rfl
+
+theorem dts_loopEpilogue (r : Bool) (lb le : Name) (s : St) (hin : s.inner ≠ []) :
+    (loopEpilogue r lb le s).dts = closeDts s.dts := by
+  unfold loopEpilogue
+  dsimp only
+  have h1 : (if r then s else (s.push (.jumpTo lb)).push (.setLabel le)).dts = s.dts ∧
+      (if r then s else (s.push (.jumpTo lb)).push (.setLabel le)).inner ≠ [] := by
+    cases r
+    · refine ⟨by simp only [Bool.false_eq_true, if_false]; rw [dts_push_plain _ _ rfl, dts_push_plain _ _ rfl], ?_⟩
+      intro h
+      simp only [Bool.false_eq_true, if_false] at h
+      have := (push_fields (.setLabel le) (s.push (.jumpTo lb))).2
+      rw [h, (push_fields (.jumpTo lb) s).2] at this
+      exact hin (List.eq_nil_of_length_eq_zero this.symm)
+    · exact ⟨rfl, hin⟩
+  generalize (if r then s else (s.push (.jumpTo lb)).push (.setLabel le)) = s1 at h1
+  rw [dts_leave s1 h1.2, h1.1]
+
 /-! ### Chains of error lists -/
 
 theorem chain2 {a b c : List Err} (h1 : ∃ Δ, b = a ++ Δ) (h2 : ∃ Δ, c = b ++ Δ) (h : c = a) : b = a ∧ c = b := by
@@ -268,18 +387,19 @@ theorem den_ifPrologue {g : Globals} {R : Ty} {rg : RGlobals} (hg : GlobRel g rg
   generalize (if dup then s.addErr .ifElseDuplicated "if-condition".toList 1 0 else s) = s0 at he x0 hdup ⊢
   have q1 := quiet_ifLabels le s0
   have f1 := ifLabels_fields le s0
-  generalize ifLabels le s0 = p at he q1 f1 ⊢
+  have d1 := dts_ifLabels le s0
+  generalize ifLabels le s0 = p at he q1 f1 d1 ⊢
   obtain ⟨lBegin, lElse, lEnd, s1⟩ := p
-  dsimp only at he q1 f1 ⊢
+  dsimp only at he q1 f1 d1 ⊢
   rw [(push_fields _ _).1] at he
   have x2 := (esteps_ifCondCalc g cond lBegin lElse lEnd isElse s1).errors_ext
   have x1 : ∃ Δ, s1.errors = s.errors ++ Δ := by rw [f1.1]; exact x0
   obtain ⟨e1, e2⟩ := chain2 x1 x2 he
   have hs0 : s0 = s := hdup (by rw [← f1.1]; exact e1)
   subst hs0
-  have r1 : DRel g R s1 ss.push := drel_enter hr q1 f1.2.1
+  have r1 : DRel g R s1 ss.push := drel_enter hr q1 f1.2.1 d1
   have r2 := den_ifCondCalc hg hn cond lBegin lElse lEnd isElse s1 ss.push r1 e2
-  refine ⟨drel_same r2 (quiet_push _ (skipped_setLabel _) _) (vals_push _ _), ?_⟩
+  refine ⟨drel_same r2 (quiet_push _ (skipped_setLabel _) _) (vals_push _ _) (dts_push_plain _ _ rfl), ?_⟩
   rw [(push_fields _ _).2, (esteps_ifCondCalc g cond lBegin lElse lEnd isElse s1).inner_len, f1.2.2]
 
 /-! ### `loop_statement` around its statement loop -/
@@ -294,11 +414,12 @@ theorem den_loopWrap {g : Globals} {R : Ty} (k : Name → Name → Bool → Bool
   dsimp only at he ⊢
   have q1 := quiet_loopPrologue s
   have f1 := loopPrologue_fields s
-  generalize loopPrologue s = p at he q1 f1 ⊢
+  have d1 := dts_loopPrologue s
+  generalize loopPrologue s = p at he q1 f1 d1 ⊢
   obtain ⟨lb, le, s1⟩ := p
-  dsimp only at he q1 f1 ⊢
+  dsimp only at he q1 f1 d1 ⊢
   have x2 := (hx lb le false false false s1).errors_ext
-  have h2 := hk lb le s1 ss.push (drel_enter hr q1 f1.2.1)
+  have h2 := hk lb le s1 ss.push (drel_enter hr q1 f1.2.1 d1)
   generalize k lb le false false false s1 = q at he x2 h2 ⊢
   obtain ⟨s2, r⟩ := q
   dsimp only at he x2 h2 ⊢
@@ -315,7 +436,7 @@ theorem den_loopWrap {g : Globals} {R : Ty} (k : Name → Name → Bool → Bool
   obtain ⟨r2, l2⟩ := h2 e2
   have hne : s2.inner ≠ [] := inner_ne_of_len (by rw [l2, f1.2.2])
   have f3 := loopEpilogue_fields r lb le s2 hne
-  refine ⟨drel_leave r2 (quiet_loopEpilogue r lb le s2) f3.2.1, ?_⟩
+  refine ⟨drel_leave r2 (quiet_loopEpilogue r lb le s2) f3.2.1 (dts_loopEpilogue r lb le s2 hne) hne, ?_⟩
   have := f3.2.2
   rw [l2, f1.2.2] at this
   omega
@@ -346,9 +467,10 @@ theorem den_ifCondition (hg : GlobRel g rg) (hn : GNames g) : ∀ (i : IfStmt) (
     dsimp only at he x2 h2 ⊢
     have q3 := quiet_ifAfterBody (els.isSome || elif.isSome) r lElse lEnd s2
     have f3 := ifAfterBody_fields (els.isSome || elif.isSome) r lElse lEnd s2
-    generalize ifAfterBody (els.isSome || elif.isSome) r lElse lEnd s2 = q3' at he q3 f3 ⊢
+    have d3 := dts_ifAfterBody (els.isSome || elif.isSome) r lElse lEnd s2
+    generalize ifAfterBody (els.isSome || elif.isSome) r lElse lEnd s2 = q3' at he q3 f3 d3 ⊢
     obtain ⟨k, s3⟩ := q3'
-    dsimp only at he q3 f3 ⊢
+    dsimp only at he q3 f3 d3 ⊢
     -- the error list of the else part extends that of `s3`
     have x4 : ∃ Δ, (match els, elif with
         | some eb, _ => ifAfterElse k (ifBodies g eb lEnd labelLoop s3.enter).2 lEnd (ifBodies g eb lEnd labelLoop s3.enter).1
@@ -376,7 +498,7 @@ theorem den_ifCondition (hg : GlobRel g rg) (hn : GNames g) : ∀ (i : IfStmt) (
     obtain ⟨r2, l2⟩ := h2 r1 e2
     have hne2 : s2.inner ≠ [] := inner_ne_of_len (by rw [l2, l1])
     have f3' := f3 hne2
-    have r3 : DRel g R s3 (specBodies false rg body (specIfCond false cond ss.push)).pop := drel_leave r2 q3 f3'.2.1
+    have r3 : DRel g R s3 (specBodies false rg body (specIfCond false cond ss.push)).pop := drel_leave r2 q3 f3'.2.1 (d3 hne2) hne2
     have l3 : s3.inner.length = s.inner.length := by have := f3'.2.2; rw [l2, l1] at this; omega
     suffices hmain : DRel g R (match els, elif with
         | some eb, _ => ifAfterElse k (ifBodies g eb lEnd labelLoop s3.enter).2 lEnd (ifBodies g eb lEnd labelLoop s3.enter).1
@@ -391,7 +513,7 @@ theorem den_ifCondition (hg : GlobRel g rg) (hn : GNames g) : ∀ (i : IfStmt) (
         | none, some ei => ifCondition g ei (some lEnd) labelLoop s3
         | none, none => s3).inner.length = s.inner.length by
       refine ⟨?_, ?_⟩
-      · refine drel_same ?_ (quiet_ifEpilogue _ _ _ _) (ifEpilogue_fields _ _ _ _).2.1
+      · refine drel_same ?_ (quiet_ifEpilogue _ _ _ _) (ifEpilogue_fields _ _ _ _).2.1 (dts_ifEpilogue _ _ _ _)
         cases els with
         | some eb => exact hmain.1
         | none => cases elif <;> exact hmain.1
@@ -404,14 +526,14 @@ theorem den_ifCondition (hg : GlobRel g rg) (hn : GNames g) : ∀ (i : IfStmt) (
     | some eb =>
       dsimp only at e4 ⊢
       rw [(quiet_ifAfterElse _ _ _ _).errors] at e4
-      have h4 := den_ifBodies hg hn eb lEnd labelLoop hrest s3.enter _ (drel_enter r3 (quiet_enter s3) (vals_enter s3)) e4
+      have h4 := den_ifBodies hg hn eb lEnd labelLoop hrest s3.enter _ (drel_enter r3 (quiet_enter s3) (vals_enter s3) (dts_enter s3)) e4
       generalize ifBodies g eb lEnd labelLoop s3.enter = q4 at h4 ⊢
       obtain ⟨s4, r4⟩ := q4
       dsimp only at h4 ⊢
       obtain ⟨r4', l4⟩ := h4
       have hne4 : s4.inner ≠ [] := inner_ne_of_len (n := s3.inner.length) (by rw [l4]; simp [St.enter])
       have f5 := ifAfterElse_fields k r4 lEnd s4 hne4
-      refine ⟨drel_leave r4' (quiet_ifAfterElse _ _ _ _) f5.2.1, ?_⟩
+      refine ⟨drel_leave r4' (quiet_ifAfterElse _ _ _ _) f5.2.1 (dts_ifAfterElse k r4 lEnd s4 hne4) hne4, ?_⟩
       have := f5.2.2
       rw [l4] at this
       simp [St.enter] at this
@@ -554,13 +676,13 @@ theorem den_ifLoopBody (hg : GlobRel g rg) (hn : GNames g) : ∀ (l : List IfLoo
       unfold IfLoopStmt.anaOKL at hok
       unfold specIfLoopBody
       exact body_step rc bc cc hr ⟨[], by simp [St.push, St.mapFrames]⟩ (steps_ifLoopBody g tl lEnd lb le rc bc true _).errors_ext he
-        (fun hr _ => ⟨drel_same hr (quiet_push _ (skipped_jumpTo _) _) (vals_push _ _), (push_fields _ _).2⟩)
+        (fun hr _ => ⟨drel_same hr (quiet_push _ (skipped_jumpTo _) _) (vals_push _ _) (dts_push_plain _ _ rfl), (push_fields _ _).2⟩)
         (den_ifLoopBody hg hn tl lEnd lb le rc bc true hok _ _)
     | brk =>
       unfold IfLoopStmt.anaOKL at hok
       unfold specIfLoopBody
       exact body_step rc bc cc hr ⟨[], by simp [St.push, St.mapFrames]⟩ (steps_ifLoopBody g tl lEnd lb le rc true cc _).errors_ext he
-        (fun hr _ => ⟨drel_same hr (quiet_push _ (skipped_jumpTo _) _) (vals_push _ _), (push_fields _ _).2⟩)
+        (fun hr _ => ⟨drel_same hr (quiet_push _ (skipped_jumpTo _) _) (vals_push _ _) (dts_push_plain _ _ rfl), (push_fields _ _).2⟩)
         (den_ifLoopBody hg hn tl lEnd lb le rc true cc hok _ _)
 theorem den_loopBody (hg : GlobRel g rg) (hn : GNames g) : ∀ (l : List LoopStmt) (lb le : Name) (rc bc cc : Bool),
     LoopStmt.anaOKL l = true → ∀ s ss, DRel g R s ss → (loopBody g l lb le rc bc cc s).1.errors = s.errors →
@@ -622,13 +744,13 @@ theorem den_loopBody (hg : GlobRel g rg) (hn : GNames g) : ∀ (l : List LoopStm
       unfold LoopStmt.anaOKL at hok
       unfold specLoopBody
       exact body_step rc bc cc hr ⟨[], by simp [St.push, St.mapFrames]⟩ (steps_loopBody g tl lb le rc true cc _).errors_ext he
-        (fun hr _ => ⟨drel_same hr (quiet_push _ (skipped_jumpTo _) _) (vals_push _ _), (push_fields _ _).2⟩)
+        (fun hr _ => ⟨drel_same hr (quiet_push _ (skipped_jumpTo _) _) (vals_push _ _) (dts_push_plain _ _ rfl), (push_fields _ _).2⟩)
         (den_loopBody hg hn tl lb le rc true cc hok _ _)
     | cont =>
       unfold LoopStmt.anaOKL at hok
       unfold specLoopBody
       exact body_step rc bc cc hr ⟨[], by simp [St.push, St.mapFrames]⟩ (steps_loopBody g tl lb le rc bc true _).errors_ext he
-        (fun hr _ => ⟨drel_same hr (quiet_push _ (skipped_jumpTo _) _) (vals_push _ _), (push_fields _ _).2⟩)
+        (fun hr _ => ⟨drel_same hr (quiet_push _ (skipped_jumpTo _) _) (vals_push _ _) (dts_push_plain _ _ rfl), (push_fields _ _).2⟩)
         (den_loopBody hg hn tl lb le rc bc true hok _ _)
 end
 
